@@ -205,7 +205,10 @@ def short_fn(path):
 
 def source_of(bf, op):
     """describe where an error value comes from: the awaited or called function whose result it is"""
-    t = term_of_operand(bf, op)
+    return source_of_term(bf, term_of_operand(bf, op))
+
+
+def source_of_term(bf, t):
     polls = await_by_poll(bf)
     c = find_in_term(t, lambda x: isinstance(x, tuple) and len(x) == 4 and x[0] == 'call' and not any(
         x[1].endswith(s) for s in ('Try::branch', 'Result::map_err', 'FromResidual::from_residual', 'Into::into', 'From::from')))
@@ -219,8 +222,9 @@ def source_of(bf, op):
     return short_fn(c[1])
 
 
-def err_exits(bf):
-    """`?` exits and explicit `Err(..)` returns of a body: list of dict(bb, source, kind)"""
+def err_exits(bf, trace_explicit=False):
+    """`?` exits and explicit `Err(..)` returns of a body: list of dict(bb, source, kind); with trace_explicit an `Err(e)` whose e is
+    the Err payload of a call / await result is attributed to that call like the `?` it spells out"""
     res = []
     body = bf.body
     for bb, t in bf.calls():
@@ -233,7 +237,16 @@ def err_exits(bf):
         for si, s in enumerate(b.stmts):
             if s.k == 'assign' and s.lhs.is_local() and s.lhs.local == 0 and s.rv.k == 'agg' and s.rv.d.get('variant') == 'Err' \
                     and s.rv.d.get('adt', '').endswith('Result'):
-                res.append({'bb': b.idx, 'source': 'explicit', 'kind': 'Err'})
+                # `Err(e)` / `Err(wrap(e))` with e the Err payload of a call or await result is the hand-written form of `?`
+                src = 'explicit'
+                if s.rv.ops and trace_explicit:
+                    pt = term_of_operand(bf, s.rv.ops[0])
+                    inner = find_in_term(pt, lambda x: isinstance(x, tuple) and len(x) == 3 and x[0] == 'as' and x[2] == 'Err')
+                    if inner is not None:
+                        so = source_of_term(bf, inner[1])
+                        if so not in ('unknown', 'await'):
+                            src = so
+                res.append({'bb': b.idx, 'source': src, 'kind': 'Err'})
     # ordinals per source in block order
     cnt = {}
     for r in sorted(res, key=lambda r: r['bb']):
@@ -513,6 +526,9 @@ def value_cases(bf, t, conds=(), depth=0):
         # opt.map(|_| expr): Some(expr) exactly when opt is Some (expr may only use captured values)
         opt, clo = t[2]
         ret = _closure_return(clo)
+        if ret is None:
+            # the closure uses its argument: the Some payload of the mapped option
+            ret = closure_result(clo, [('field', ('as', opt, 'Some'), '0')])
         if ret is not None:
             is_some = ('call', 'core::option::Option::is_some', (('ref', opt),), None)
             return value_cases(bf, ('agg', 'core::option::Option::Some', (('0', ret),)), conds + [(is_some, (1,), None)], depth + 1) + \
